@@ -163,6 +163,13 @@ pub fn clear_column(path: &Path, column: ColId) -> Result<()> {
 		return Err(Error::Migration("Invalid column index".into()))
 	}
 
+	// Replay and reclaim any pending write-ahead logs first (as the other column operations
+	// do), otherwise a later open would replay them into the cleared column.
+	let mut options = Options::with_columns(path, meta.columns.len() as u8);
+	options.columns = meta.columns.clone();
+	options.salt = Some(meta.salt);
+	drop(Db::open(&options)?);
+
 	crate::column::Column::drop_files(column, path.to_path_buf())?;
 
 	Ok(())
